@@ -11,6 +11,8 @@ pub use crate::socket::{
     },
 };
 pub use crate::net_report::verif::ReportHistory;
+pub use crate::socket::remote_map::verif::RemoteMapHarness;
+pub use crate::socket::remote_map::RemoteInfo;
 use crate::{address_lookup::AddressLookupServices, endpoint_info::EndpointData};
 
 /// Calls the crate-private `AddressLookupServices::publish` (what the endpoint's actor calls).
